@@ -1,5 +1,6 @@
 SPECIFICATION Spec
 CONSTANTS
   Depths = {10, 1001, 10000, 100000, 1000000}
+  ParserDepths = {300000}
   Variants = {"closed", "open", "half"}
 CHECK_DEADLOCK FALSE
